@@ -10,7 +10,8 @@ About the model of the first loop of `asm::assemble` (`resolveIfs`, `checkLeftov
   conditional whose condition evaluates to `true` by exactly its first arm and every one whose
   condition evaluates to `false` by exactly its else-part (an `#elif` chain is the nested
   conditional in the else-part) or by nothing; everything else stays.  Hence nothing of an
-  unselected arm survives (`dead_arm_dropped`).
+  unselected arm survives (`dead_arm_dropped`).  (`AstNode.fresh` marks that spliced nodes carry
+  no item reference yet — the identity on what the parser produces.)
 * `leftover_conditional_is_error` — a conditional that is still there when the loop stops is
   an error, whatever its condition evaluates to.
 * `define_overrides_constant` / `resolved_constant_is_kept` — a define replaces the value of the
@@ -25,8 +26,8 @@ def spliceOne (d : Decls) (defs : Defs) (n : AstNode) : List AstNode :=
   match n with
   | .ifDir cond t f =>
     match evalSimple d defs cond with
-    | .ok (.bool true) => t
-    | .ok (.bool false) => f.getD []
+    | .ok (.bool true) => t.map AstNode.fresh
+    | .ok (.bool false) => (f.getD []).map AstNode.fresh
     | _ => [n]
   | _ => [n]
 
@@ -39,8 +40,8 @@ def ifStep (d : Decls) (defs : Defs) (n : AstNode) (acc : Except String (List As
     | .ifDir cond t f =>
       match evalSimple d defs cond with
       | .error m => .error m
-      | .ok (.bool true) => .ok (t ++ out, count + 1)
-      | .ok (.bool false) => .ok ((f.getD []) ++ out, count + 1)
+      | .ok (.bool true) => .ok (t.map AstNode.fresh ++ out, count + 1)
+      | .ok (.bool false) => .ok ((f.getD []).map AstNode.fresh ++ out, count + 1)
       | .ok _ => .ok (n :: out, count)
     | _ => .ok (n :: out, count)
 
@@ -93,18 +94,18 @@ theorem resolveIfs_splices (d : Decls) (defs : Defs) (nodes out : List AstNode) 
 /-- a conditional whose condition is true contributes exactly its first arm — nothing of the
     else-part (which holds every `#elif`/`#else`) -/
 theorem true_arm_only (d : Decls) (defs : Defs) (cond : Expr) (t : List AstNode) (f : Option (List AstNode))
-    (h : evalSimple d defs cond = .ok (.bool true)) : spliceOne d defs (.ifDir cond t f) = t := by
+    (h : evalSimple d defs cond = .ok (.bool true)) : spliceOne d defs (.ifDir cond t f) = t.map AstNode.fresh := by
   simp [spliceOne, h]
 
 /-- …and one whose condition is false contributes exactly its else-part, or nothing -/
 theorem false_arm_only (d : Decls) (defs : Defs) (cond : Expr) (t : List AstNode) (f : Option (List AstNode))
-    (h : evalSimple d defs cond = .ok (.bool false)) : spliceOne d defs (.ifDir cond t f) = f.getD [] := by
+    (h : evalSimple d defs cond = .ok (.bool false)) : spliceOne d defs (.ifDir cond t f) = (f.getD []).map AstNode.fresh := by
   simp [spliceOne, h]
 
 /-- a program that is a single decided conditional becomes its selected arm: the dead arm is gone -/
 theorem dead_arm_dropped (d : Decls) (defs : Defs) (cond : Expr) (t e out : List AstNode) (k : Nat)
     (hc : evalSimple d defs cond = .ok (.bool true))
-    (h : resolveIfs d defs [.ifDir cond t (some e)] = .ok (out, k)) : out = t := by
+    (h : resolveIfs d defs [.ifDir cond t (some e)] = .ok (out, k)) : out = t.map AstNode.fresh := by
   rw [resolveIfs_splices d defs _ out k h]
   simp [spliceOne, hc]
 
